@@ -238,8 +238,8 @@ def run(ctx):  # noqa: C901, PLR0912, PLR0915
 
     ctx.log(f'reader done at {__import__("time").time() - ctx.t0:.0f}s')
     # ------------------------------------------------------------ world stream
-    n_worlds = ctx.n(1, 6)
-    per_world = ctx.n(1200, 6000)
+    n_worlds = ctx.n(1, 4)
+    per_world = ctx.n(1200, 5000)
     traces = []
     meta = []
     for w in range(n_worlds):
@@ -293,8 +293,8 @@ def run(ctx):  # noqa: C901, PLR0912, PLR0915
             if got != want:
                 expect_diff.append({'request_type': tr['label'], 'mutation': tr['mutation'], 'path': tr['path'], 'expected (status, kind)': want,
                                     'got': got, 'stages': tr['frame'], 'read_ok': tr['read_ok'], 'world': tr['cfg'], 'raw_request_hex': tr.get('raw_hex')})
-        # replay the observed outcomes on the model
-        if len(tr['entered']) != 1 or tr['status'] is None:
+        # replay the observed outcomes on the model (every top-level delivery, every 10th nested notification)
+        if len(tr['entered']) != 1 or tr['status'] is None or (tr['nested'] and i % 10):
             continue
         is_post = tr['entered'][0] == 'do_POST'
         f = tr['frame']
